@@ -200,9 +200,24 @@ func vBez3(p0, p1, p2, p3, t Fl) Fl {
 // each SVG transform function is stored with the kind and the argument
 // slots that transform.toMatrix reads (skewY(a) is skew(0, a); scale(s) is scale(s, s);
 // translate(x) is translate(x, 0); the other forms keep their arguments in order)
+//@ func parseValue
+//@   props C07 C01
+//@   nopanic
+//@   modifies nothing
+//@   loop 1 invariant true
+//@ func parseValues
+//@   props C07 C01
+//@   nopanic
+//@   modifies nothing
+//@   ensures err == nil ==> fresh(points)
+//@   loop 1 invariant fresh(points) && len(points) == len(fields) && rangeindex < len(fields)
+// parseTransform never panics, whatever the number of arguments of a transform function (the argument
+// slots are a fixed array of six values: longer lists are truncated by the copy, then rejected)
 //@ func parseTransform
-//@   props C17
+//@   props C17 C07 C01
+//@   nopanic
 //@   modifies anything
+//@   loop 1 invariant true
 //@   call append#1 assert[skewy] transformKind == "skewy" ==> L == 1 && tr.kind == skew && tr.args[0].V == 0 && tr.args[0].U == Px && tr.args[1] == points[0]
 //@   call append#1 assert[skewx] transformKind == "skewx" ==> L == 1 && tr.kind == skew && tr.args[0] == points[0] && tr.args[1].V == 0
 //@   call append#1 assert[skew] transformKind == "skew" ==> L == 2 && tr.kind == skew && tr.args[0] == points[0] && tr.args[1] == points[1]
